@@ -2,7 +2,7 @@
 import random
 from typing import Any, Dict, Iterator, List, Optional
 
-from core import Case, Prop, SelfCheckFailure, exc_category, DOCUMENTED
+from core import Case, Prop, SelfCheckFailure, exc_category, DOCUMENTED, pack_stable, ISOLATION
 from gen import hx, unhx, pool, rbytes
 
 import spacepackets.cfdp.pdu.file_data as fdmod
@@ -13,6 +13,7 @@ from spacepackets.cfdp.pdu.file_data import (
 from spacepackets.cfdp.defs import PduType, Direction, CrcFlag, LargeFileFlag, SegmentMetadataFlag
 from spacepackets.crc import CRC16_CCITT_FUNC
 from props.c05 import _conf, _fields as hdr_fields, spec_pack as hdr_spec_pack, with_crc, rand_val, vmax, WIDTHS
+from props.c05 import shared_conf, conf_untouched, contrast_conf, decoded_alone
 
 CONF_KEYS = ["src_w", "src_v", "dst_w", "dst_v", "seq_w", "seq_v", "mode", "large", "crc", "dir", "segctrl"]
 CONF_FLAGS = ["mode", "large", "crc", "dir", "segctrl"]
@@ -38,8 +39,17 @@ def _params(a) -> FileDataParams:
     return FileDataParams(file_data=data, offset=a["offset"], segment_metadata=_meta(a))
 
 
-def _pdu(a) -> FileDataPdu:
-    return FileDataPdu(pdu_conf=_conf(a), params=_params(a))
+def _pdu(a, conf=None) -> FileDataPdu:
+    return FileDataPdu(pdu_conf=_conf(a) if conf is None else conf, params=_params(a))
+
+
+def _built(a, what: str, use):
+    """`use(FileDataPdu(conf, params))` with the PduConfig instance a program would hold for these configuration
+    parameters (shared between cases, see props/c05.py); constructing / packing leaves it as it was (C11 clause)"""
+    conf = shared_conf(a)
+    out = use(_pdu(a, conf))
+    conf_untouched(conf, a, what)
+    return out
 
 
 def _pdu_fields(p: FileDataPdu) -> Dict[str, Any]:
@@ -75,10 +85,8 @@ def _check_octets(f: Dict[str, Any], raw: bytes, what: str):
 
 def _packed(p: FileDataPdu) -> Dict[str, Any]:
     f = _pdu_fields(p)
-    raw = bytes(p.pack())
+    raw = pack_stable(p, "FileDataPdu.pack()")
     _check_octets(f, raw, "pack")
-    if bytes(p.pack()) != raw:
-        raise SelfCheckFailure("pack() twice gives different octets")
     u = FileDataPdu.unpack(raw)
     fu = _pdu_fields(u)
     if fu != f:
@@ -93,11 +101,20 @@ def _packed(p: FileDataPdu) -> Dict[str, Any]:
 
 
 def op_fd_new(a):
-    return _pdu_fields(_pdu(a))
+    return _built(a, "FileDataPdu(...)", _pdu_fields)
 
 
 def op_fd_pack(a):
-    return _packed(_pdu(a))
+    return _built(a, "FileDataPdu(...).pack()", _packed)
+
+
+def _digest(p: FileDataPdu):
+    """cheap but complete view for the isolation probes: the octets the PDU re-packs to and its lengths"""
+    try:
+        raw = hx(p.pack())
+    except ValueError:
+        return _pdu_fields(p)
+    return {"raw": raw, "packet_len": int(p.packet_len), "header_len": int(p.header_len)}
 
 
 def op_fd_unpack(a):
@@ -114,6 +131,10 @@ def op_fd_unpack(a):
         else:
             raise
     f = _pdu_fields(p)
+    # the PDUs decoded by the previous calls are looked at again (decoding this input must not have changed them), and
+    # this one is looked at again after another header was decoded
+    d = ISOLATION.check("C07:FileDataPdu", p, _digest)
+    decoded_alone(p, _digest, f, "FileDataPdu.unpack", before=d)
     if f["packet_len"] > len(buf):
         raise SelfCheckFailure("decoded PDU is longer than the buffer it was decoded from")
     rp = bytes(p.pack())
@@ -147,16 +168,17 @@ def _max_seg_check(conf_args, meta, max_len: int, n: int):
 
 def op_fd_max_seg(a):
     meta = _meta(a)
-    n = int(get_max_file_seg_len_for_max_packet_len_and_pdu_cfg(_conf(a), a["max_len"], meta))
+    conf = shared_conf(a)
+    n = int(get_max_file_seg_len_for_max_packet_len_and_pdu_cfg(conf, a["max_len"], meta))
+    conf_untouched(conf, a, "get_max_file_seg_len_for_max_packet_len_and_pdu_cfg")
     if a["src_w"] == a["dst_w"] and a["src_w"] != 0 and a["seq_w"] != 0:
         _max_seg_check(a, meta, a["max_len"], n)
     return {"len": n}
 
 
 def op_fd_max_seg_obj(a):
-    p = _pdu(a)
-    n = int(p.get_max_file_seg_len_for_max_packet_len(a["max_len"]))
-    return {"len": n}
+    return _built(a, "FileDataPdu.get_max_file_seg_len_for_max_packet_len",
+                  lambda p: {"len": int(p.get_max_file_seg_len_for_max_packet_len(a["max_len"]))})
 
 
 def _apply(p: FileDataPdu, s):
@@ -168,8 +190,10 @@ def _apply(p: FileDataPdu, s):
 
 def _state(p: FileDataPdu) -> Dict[str, Any]:
     try:
-        raw = bytes(p.pack())
+        raw = pack_stable(p, "FileDataPdu.pack()")
         perr = None
+    except SelfCheckFailure:
+        raise
     except Exception as e:  # noqa
         perr = exc_category(e)
         if perr not in DOCUMENTED:
@@ -181,8 +205,6 @@ def _state(p: FileDataPdu) -> Dict[str, Any]:
     if raw is not None:
         f = {"packet_len": st["packet_len"], "header_len": int(p.header_len), "crc": int(p.crc_flag)}
         _check_octets(f, raw, "after setter")
-        if bytes(p.pack()) != raw:
-            raise SelfCheckFailure("pack() twice gives different octets")
     return st
 
 
@@ -237,11 +259,13 @@ def op_fd_useq(a):
 
 
 def op_fd_eq(a):
-    p = _pdu(a)
-    q = FileDataPdu(_conf(a), FileDataParams(unhx(a["data2"]), a["offset2"], _meta(a, "meta2", "state2")))
+    conf = shared_conf(a)        # both PDUs from the same PduConfig instance, as in a real program
+    p = _pdu(a, conf)
+    q = FileDataPdu(conf, FileDataParams(unhx(a["data2"]), a["offset2"], _meta(a, "meta2", "state2")))
     r1, r2 = bool(p == q), bool(q == p)
     if r1 != r2:
         raise SelfCheckFailure("== is not symmetric")
+    conf_untouched(conf, a, "FileDataPdu(...) / ==")
     return {"eq": r1}
 
 
@@ -723,6 +747,25 @@ class C07(Prop):
             elif r == 5 and a["meta"] is not None:
                 b["meta2"] = a["meta"] + "00" if len(a["meta"]) < 126 else a["meta"][:-2]
             yield Case({"op": "fd_eq", **a, **b}, "valid", tag="equality")
+
+        # --- state leaking between calls / objects (the ops look again at the PDUs decoded by the previous calls and
+        #     hand the same PduConfig instance to cases with equal configuration parameters) ---
+        for i in range(2000 if thorough else 120):
+            ca = rand_conf(rng)
+            cb = contrast_conf(ca)
+            # one configuration through the constructor several times, the one differing in every field, the first again
+            for c in (ca, ca, cb, ca):
+                yield Case({"op": "fd_pack", **rand_args(rng, c), "via": i % 2}, "valid", tag="shared-config")
+            yield Case({"op": "fd_new", **rand_args(rng, ca)}, "valid", tag="shared-config")
+            if i % 4 == 0:
+                a = rand_args(rng, ca)
+                base = 4 + 2 * a["src_w"] + a["seq_w"] + (8 if a["large"] else 4) + 2 * a["crc"] + meta_len(a)
+                yield Case({"op": "fd_max_seg_obj", **a, "max_len": base + rng.randint(0, 3000)}, "valid", tag="shared-config")
+                yield Case({"op": "fd_pack", **rand_args(rng, ca)}, "valid", tag="shared-config")
+            # decode A, then B (every configuration field differs), then A again
+            for c in (ca, cb, ca):
+                yield dec_case(spec_fd(rand_args(rng, c)), "isolation-pair", rng.choice([b"", b"", rbytes(rng, 3)]),
+                               via=i % 2)
 
 
 PROP = C07()
